@@ -262,8 +262,35 @@ pub fn gen_val(r: &mut Rng, t: &DTy, big: bool) -> DVal {
                 _ => DVal::UVar(i as u32),
             }
         }
+        DTy::EnumAt(i, vt) => match &**vt {
+            DTy::NStruct(t) => DVal::NVar(*i, Box::new(gen_val(r, t, false))),
+            DTy::Tuple(ts) => DVal::TVar(*i, ts.iter().map(|t| gen_val(r, t, false)).collect()),
+            DTy::Struct(ts) => DVal::SVar(*i, ts.iter().map(|t| gen_val(r, t, false)).collect()),
+            _ => DVal::UVar(*i),
+        },
         DTy::Any | DTy::Identifier | DTy::Ignored => DVal::Unit,
     }
+}
+
+/// enums with ONE accepted discriminant anywhere in the u32 range (what a hand-written Deserialize impl with
+/// sparse discriminants looks like): every varint width of the index, all four variant shapes
+pub fn enum_at_cases(r: &mut Rng) -> Vec<(u32, DTy, DVal)> {
+    let idxs: [u32; 18] = [0, 1, 127, 128, 300, 16383, 16384, (1 << 21) - 1, 1 << 21, (1 << 28) - 1, 1 << 28, (1 << 28) + 1, 0x1234_5678, 1 << 31, (1 << 31) + 5, u32::MAX - 1, u32::MAX, 0x8000_0080];
+    let mut out = Vec::new();
+    for (k, i) in idxs.iter().enumerate() {
+        let shapes = [
+            DTy::Unit,
+            DTy::NStruct(Box::new(if k % 2 == 0 { DTy::U(16) } else { DTy::Str })),
+            DTy::Tuple(vec![DTy::U(8), DTy::Option(Box::new(DTy::I(32)))]),
+            DTy::Struct(vec![DTy::Bool, DTy::Bytes]),
+        ];
+        for vt in shapes {
+            let t = DTy::EnumAt(*i, Box::new(vt.clone()));
+            let v = gen_val(r, &t, false);
+            out.push((*i, vt, v));
+        }
+    }
+    out
 }
 
 /// all 29 kinds appear in this fixed list of (type, value) pairs
